@@ -111,8 +111,8 @@ func (f *Flags) StringList(name string, def string, usage string) *[]*string {
 	return &out
 }
 
-func (f *Flags) ExtraUsage() string       { return "" }
-func (f *Flags) AddExtraUsage(eu string)  {}
+func (f *Flags) ExtraUsage() string          { return "" }
+func (f *Flags) AddExtraUsage(eu string)     {}
 func (f *Flags) Parse(usage func()) []string { return f.Args }
 
 // UI is a scripted plugin.UI that records everything printed.
@@ -162,8 +162,8 @@ func (u *UI) PrintErr(args ...interface{}) {
 	}
 }
 
-func (u *UI) IsTerminal() bool                              { return false }
-func (u *UI) WantBrowser() bool                             { return false }
+func (u *UI) IsTerminal() bool                             { return false }
+func (u *UI) WantBrowser() bool                            { return false }
 func (u *UI) SetAutoComplete(complete func(string) string) {}
 
 // Snapshot returns copies of what was printed so far.
